@@ -319,5 +319,7 @@ static void agent_abort(agent_ref a)
   if (g_aborts < VX_BIG) g_aborts++;
 }
 static long steady_value(long t) { return t; }
+/* a clock read: any value (deadlines are opaque, see META) */
+static long vx_clock_now(void) { long t = nondet_long(); return t; }
 #define VX_EXC_RET thread_restart_state_unknown
 #endif
